@@ -11,6 +11,7 @@ from tools.lib import core
 
 PROP = 'C07'
 FID = 'F-PY-PICKLEPATH'
+FID_STATE = 'F-PY-PICKLESTATE'
 FRAGMENT = os.path.join(core.VERIF, 'known_findings.d', 'C07.json')
 
 MANIFEST = dict(
@@ -179,6 +180,28 @@ def mk_case(cid: str, lang: str, args: typing.List[str], ns: dict, audit: bool) 
                 audit=audit, ns=ns, opt=args)
 
 
+_D0 = dict(ns=['dep', 'far'], short='D0', major=0, minor=1, kind='struct', fields=[('prim', 'uint8')], resp=[])
+_D1 = dict(ns=['dep', 'far'], short='D1', major=2, minor=2, kind='struct', fields=[('prim', 'uint8')], resp=[])
+WITNESS_STATE_NS = dict(root='acme', lookup=[_D0, _D1], types=[
+    dict(ns=['acme', 'inner'], short='Gamma', major=2, minor=2, kind='union',
+         fields=[('prim', 'uint8'), ('comp', _D0, ''), ('comp', _D1, ''), ('prim', 'uint7')], resp=[]),
+    dict(ns=['acme', 'zz'], short='Eta', major=1, minor=1, kind='struct',
+         fields=[('prim', 'bool'), ('comp', _D0, ''), ('prim', 'int16')], resp=[])])
+
+
+def state_trigger(case: dict, rel: str, run: dict) -> bool:
+    """trigger of F-PY-PICKLESTATE for one (file, run) pair"""
+    if not is_py_type_file(case, rel) or run['hashseed'] == case['runs'][0]['hashseed']:
+        return False
+    ns = case['ns']
+    if len({tuple(t['ns']) for t in ns['types']}) < 2:
+        return False
+    for t in ns['types']:
+        if '/'.join(t['ns'] + ['%s_%d_%d.py' % (t['short'], t['major'], t['minor'])]) == rel:
+            return bool(deps_of(t))
+    return False
+
+
 WITNESS_NS = dict(root='ns', lookup=[], types=[
     dict(ns=['ns'], short='A', major=1, minor=0, kind='struct', fields=[('prim', 'uint8')], resp=[])])
 
@@ -221,7 +244,8 @@ def oracle_diffs(case: dict, res: dict) -> typing.List[dict]:
                             only_run=sorted(set(ri['files']) - set(r0['files']))))
         for rel in sorted(set(ri['files']) & set(r0['files'])):
             if ri['files'][rel] != r0['files'][rel]:
-                out.append(dict(run=r['name'], what='bytes differ', file=rel, loc_differs=r['loc'] != 'A'))
+                out.append(dict(run=r['name'], what='bytes differ', file=rel, loc_differs=r['loc'] != 'A',
+                                state_trigger=state_trigger(case, rel, r) if 'ns' in case else False))
     return out
 
 
@@ -247,7 +271,7 @@ def model_paths(case: dict) -> typing.Tuple[typing.List[str], typing.List[str]]:
     return [], []
 
 
-def coq_case(i: int, case: dict, res: dict, pickle_live: bool) -> typing.Tuple[str, typing.List[str]]:
+def coq_case(i: int, case: dict, res: dict, pickle_live: bool, state_live: bool = False) -> typing.Tuple[str, typing.List[str]]:
     L = LANG[case['lang']]
     ns = case['ns']
     r0 = res['runs']['R0']
@@ -295,19 +319,20 @@ def coq_case(i: int, case: dict, res: dict, pickle_live: bool) -> typing.Tuple[s
     for j, r in enumerate(case['runs'][1:], 1):
         ri = res['runs'][r['name']]
         real = '; '.join('(%s, %s)' % (cs(f), cbool(ri['files'].get(f) == h)) for f, h in sorted(r0['files'].items()))
-        checks.append('rel_agrees (predict gen_src_facts %s c_%d I_%d %s %s) [%s]' % (tbl, i, i, e0, env_of(j, r), real))
+        skip = [f for f in sorted(r0['files']) if state_live and state_trigger(case, f, r)]
+        checks.append('rel_agrees_except %s (predict gen_src_facts %s c_%d I_%d %s %s) [%s]' % (cpath(skip), tbl, i, i, e0, env_of(j, r), real))
         labels.append('rel:' + r['name'])
     lines.append('Definition r_%d : list bool := [\n  %s ].' % (i, ';\n  '.join(checks)))
     return '\n'.join(lines), labels
 
 
-def run_model(cases: typing.List[dict], results: typing.Dict[str, dict], pickle_live: bool) -> typing.Tuple[typing.Optional[typing.List[typing.List[bool]]], typing.List[typing.List[str]], str]:
+def run_model(cases: typing.List[dict], results: typing.Dict[str, dict], pickle_live: bool, state_live: bool = False) -> typing.Tuple[typing.Optional[typing.List[typing.List[bool]]], typing.List[typing.List[str]], str]:
     d = core.scratch('c07-coq-')
     parts = ['From Coq Require Import List NArith.', 'From Verif Require Import Str Repro Gen_Repro.', 'Import ListNotations.',
              'Open Scope N_scope.', '']
     all_labels = []
     for i, c in enumerate(cases):
-        text, labels = coq_case(i, c, results[c['id']], pickle_live)
+        text, labels = coq_case(i, c, results[c['id']], pickle_live, state_live)
         parts.append(text)
         all_labels.append(labels)
     parts.append('Eval vm_compute in [%s].' % '; '.join('r_%d' % i for i in range(len(cases))))
@@ -378,6 +403,8 @@ def build_cases(chk: core.Check) -> typing.List[dict]:
     n_ns = 5 if chk.tier == 'quick' else 30
     cases = [mk_case('w-py', 'py', [], WITNESS_NS, False)]
     cases[0]['runs'] = [r for r in cases[0]['runs'] if r['name'] in ('R0', 'Rloc', 'Rh1')]
+    cases.append(mk_case('w-state', 'py', [], WITNESS_STATE_NS, False))
+    cases[1]['runs'] = [r for r in cases[1]['runs'] if r['name'] in ('R0', 'Rh1', 'Rh2', 'Rclk')]
     for k in range(n_ns):
         ns = gen_namespace(rng, rng.choice([2, 3, 4, 6, 8]))
         for lang in ('c', 'cpp', 'py', 'html'):
@@ -436,11 +463,24 @@ def main(chk: core.Check, replay: typing.Optional[str] = None) -> int:
     if pickle_live and chk.is_known(FID):
         chk.report_known(FID, 'ns/A_1_0.py differs between two absolute input locations')
     quirk = pickle_live and chk.is_known(FID)
+    state_live = False
+    ws = next((c for c in cases if c['id'] == 'w-state'), None)
+    if ws is None:
+        ws = mk_case('w-state', 'py', [], WITNESS_STATE_NS, False)
+        ws['runs'] = [r for r in ws['runs'] if r['name'] in ('R0', 'Rh1', 'Rh2', 'Rclk')]
+        results.update(run_impl([ws]))
+    sr = results[ws['id']].get('runs', {})
+    if all(sr.get(n, {}).get('rc') == 0 for n in ('R0', 'Rh1', 'Rh2')):
+        sdiff = {f for n in ('Rh1', 'Rh2') for f in sr['R0']['files'] if sr[n]['files'].get(f) != sr['R0']['files'][f]}
+        state_live = bool(sdiff) and all(is_py_type_file(ws, f) for f in sdiff)
+    if state_live and chk.is_known(FID_STATE):
+        chk.report_known(FID_STATE, 'acme/inner/Gamma_2_2.py differs between PYTHONHASHSEED=0 and 1 at the same location and clock')
+    state_quirk = state_live and chk.is_known(FID_STATE)
 
     stats = {'cases': len(cases), 'runs': 0, 'files_hashed': 0, 'pairs_compared': 0, 'file_pairs_compared': 0,
              'known_finding_instances': 0, 'audit_on_cases': 0, 'audit_on_file_pairs_differing': 0, 'audit_on_file_pairs_equal': 0,
              'model_checks': 0, 'by_lang': {}, 'with_lookup_deps': 0, 'with_nested_ns': 0, 'with_service': 0, 'with_union': 0,
-             'types_total': 0, 'invalid_inputs': 0, 'pairs_with_different_write_order': 0}
+             'types_total': 0, 'invalid_inputs': 0, 'known_state_instances': 0, 'pairs_with_different_write_order': 0}
     violations: typing.List[typing.Tuple[dict, dict]] = []
     distinct = set()
     usable: typing.List[dict] = []
@@ -485,10 +525,13 @@ def main(chk: core.Check, replay: typing.Optional[str] = None) -> int:
             if d['what'] == 'bytes differ' and quirk and d['loc_differs'] and is_py_type_file(c, d['file']):
                 stats['known_finding_instances'] += 1
                 continue
+            if d['what'] == 'bytes differ' and state_quirk and d.get('state_trigger'):
+                stats['known_state_instances'] += 1
+                continue
             violations.append((c, d))
 
     # model vs implementation
-    model, labels, log = run_model(usable, results, quirk) if res.ok or os.path.exists(os.path.join(core.COQ, 'theories', 'Gen', 'Repro.vo')) else (None, [], 'model not built')
+    model, labels, log = run_model(usable, results, quirk, state_quirk) if res.ok or os.path.exists(os.path.join(core.COQ, 'theories', 'Gen', 'Repro.vo')) else (None, [], 'model not built')
     bad_model = []
     if model is None:
         broken.append('model cases do not evaluate: ' + log[-400:])
@@ -507,10 +550,11 @@ def main(chk: core.Check, replay: typing.Optional[str] = None) -> int:
                 'sitecustomize, other cwd with absolute paths, other absolute location, all at once; every non-base run >= 1.2 s '
                 'later), sha256 per file; plus --embed-auditing-info cases with frozen/shifted clock. non-trivial = distinct '
                 '(language, options, namespace) with more than one type and at least one composite dependency whose runs all succeeded',
-        'samples': [dict(id=c['id'], lang=c['lang'], args=c['args'], files=sorted(c['dsdl']), lookup=sorted(c['lookup'])) for c in cases[1:9]],
+        'samples': [dict(id=c['id'], lang=c['lang'], args=c['args'], files=sorted(c['dsdl']), lookup=sorted(c['lookup'])) for c in cases[2:10]],
         'traces_validated_against_impl': stats['model_checks'],
         'distribution': stats,
-        'known_finding_probe': {FID: {'reproduces': pickle_live, 'listed': chk.is_known(FID)}},
+        'known_finding_probe': {FID: {'reproduces': pickle_live, 'listed': chk.is_known(FID)},
+                                FID_STATE: {'reproduces': state_live, 'listed': chk.is_known(FID_STATE)}},
     })
 
     if violations:
